@@ -189,6 +189,7 @@ Theorem C14_create_file_acts_on_parent_object :
   forall s rp F df fz pfuel o2 gh ps rs t root path dirp name o flags mode,
     StaticProofs.closed s -> fz <> 0%nat -> StaticProofs.chk_static_ok s rp F (OpathM.check_current fz o2 pfuel gh) ->
     wf s df -> StaticProofs.links_ok s -> rs_kernel rs = false ->
+    has flags O_PATH = false ->
     path_split path = Some (Ok (dirp, Some name)) -> has_nul dirp = false -> has_nul name = false ->
     StaticProofs.Frame s F t -> Static.tget t root = Some ROOT ->
     ewalk s dirp false (has (rs_flags rs) RESOLVE_NO_SYMLINKS) = WOk o ->
@@ -303,6 +304,7 @@ Proof. exact DynEffects.remove_exact. Qed.
    was) under that name in the resulting tree *)
 Theorem C14_create_file_exact_effect :
   forall s rp fz pfuel o2 gh ps rs, fz <> 0%nat -> forall t root path t1 dir name o flags mode,
+    has flags O_PATH = false ->
     DynEffects.parent_ok s rp fz pfuel o2 gh ps rs t root path t1 dir name o -> has_nul name = false ->
     let fl := N.lor (N.lor (N.lor (N.lor flags CREATE_FILE_FORCED) OPENAT_NOFOLLOW_FORCED) OPENAT_FORCED) O_LARGEFILE in
     Dyn.drun rp {| Dyn.ds := s; Dyn.dt := t; Dyn.dseen := [] |} (root_create_file fz o2 pfuel gh ps rs root path flags mode) =
@@ -315,6 +317,14 @@ Theorem C14_create_file_exact_effect :
     | Dyn.EUnit _ => Dyn.DNoFuel
     end.
 Proof. exact DynEffects.create_file_exact. Qed.
+
+(* F-S: with O_PATH the kernel drops O_CREAT, so create_file would OPEN its unresolved final component --
+   create_file("..", O_PATH) returned a descriptor of the root's parent.  Since fix f484c6b O_PATH is refused
+   before any system call (T0 fact CREATE_FILE_REFUSES_OPATH); the theorems above are about the other flag words *)
+Theorem C14_create_file_refuses_o_path :
+  forall fz o2 pfuel gh ps rs root path flags mode,
+    has flags O_PATH = true -> root_create_file fz o2 pfuel gh ps rs root path flags mode = Ret (Err InvalidArgument).
+Proof. intros. apply DynEffects.create_file_opath_refused. assumption. Qed.
 
 Theorem C14_rename_exact_effect :
   forall s rp fz pfuel o2 gh ps rs, fz <> 0%nat -> forall t root src dst t1 d1 sname o1 t2 d2 dname o3 fl,
@@ -389,3 +399,4 @@ Print Assumptions C14_remove_exact_effect.
 Print Assumptions C14_create_file_exact_effect.
 Print Assumptions C14_rename_exact_effect.
 Print Assumptions C14_hardlink_exact_effect.
+Print Assumptions C14_create_file_refuses_o_path.
